@@ -466,6 +466,173 @@ theorem await_status_outcomes (c c' : Ctx) (now : Int) (addr : Nat)
         · cases h
           exact Or.inl ⟨htx, rfl, Or.inr (Or.inl rfl)⟩
 
+/-! ### … as one theorem over the polls of a whole token visit -/
+
+/-- One poll (`Station.poll`, any inputs) of a station that is past the application phase of its
+visit (`phase ≥ 1`): a status request (SD1 frame) is transmitted only on the step from phase 1
+(`PassToken`, `do_gap = Yes`) to phase 2 (`AwaitStatusResponse`), and from phase 2 or 3 the station
+never returns to phase 1. -/
+theorem poll_gap_phase (s : Station) (apps : Apps) (now : Int) (phyTx : Bool) (rx : Bytes) (c' : Ctx) (ph : Nat)
+    (hph : phase s.st = some ph) (hne : ph ≠ 0) (h : s.poll apps now phyTx rx = .ok c') :
+    (isSd1 c'.tx = true → ph = 1 ∧ phase c'.s.st = some 2) ∧
+    (2 ≤ ph → phase c'.s.st ≠ some 1) := by
+  have h1 : s.st ≠ .offline := by intro hh; rw [hh] at hph; simp [phase] at hph
+  have h2 : s.st ≠ .passiveIdle := by intro hh; rw [hh] at hph; simp [phase] at hph
+  rcases poll_cases s apps now phyTx rx c' h1 h2 h with rfl | hd
+  · -- own transmission still running
+    refine ⟨fun hh => (by simp [isSd1] at hh), fun h2 => ?_⟩
+    simp only [markBusActivity]
+    rw [hph]
+    simp
+    omega
+  · have hc := checkBusActivity_core s now rx.length
+    obtain ⟨s1, hs1⟩ : ∃ s1, checkBusActivity s now rx.length = s1 := ⟨_, rfl⟩
+    rw [hs1] at hd hc
+    unfold dispatch at hd
+    cases hst : s.st with
+    | passToken g att =>
+      have hst1 : s1.st = .passToken g att := by rw [hc.1]; exact hst
+      simp only [hst1] at hd
+      cases g with
+      | true =>
+        have hph1 : ph = 1 := by rw [hst] at hph; simp [phase] at hph; omega
+        rcases gap_poll_once_per_visit_outcomes { s := s1, apps := apps, rx := rx } c' now att hst1 rfl hd with
+          ⟨ht, _, _⟩ | ⟨a, _, ht, hs, _⟩ | ⟨r, _, ht, _, _⟩
+        · exact ⟨fun hh => (by rw [ht] at hh; simp [isSd1] at hh), fun h2 => by omega⟩
+        · exact ⟨fun _ => ⟨hph1, by rw [hs]; rfl⟩, fun h2 => by omega⟩
+        · exact ⟨fun hh => (by rw [ht, isSd1_token] at hh; cases hh), fun h2 => by omega⟩
+      | false =>
+        by_cases hw : SyncOver s1 now
+        · rw [pass_token_without_gap { s := s1, apps := apps, rx := rx } now att hst1 rfl hw] at hd
+          have hd' := Res.ok.inj hd
+          subst hd'
+          refine ⟨fun hh => (by simp only [isSd1_token] at hh; cases hh), fun _ => ?_⟩
+          simp only
+          split <;> simp [phase]
+        · rw [pass_token_waits { s := s1, apps := apps, rx := rx } now false att hst1 hw] at hd
+          have hd' := Res.ok.inj hd
+          subst hd'
+          exact ⟨fun hh => (by simp [isSd1] at hh), fun _ => by simp [hst1, phase]⟩
+    | awaitStatus addr =>
+      have hst1 : s1.st = .awaitStatus addr := by rw [hc.1]; exact hst
+      simp only [hst1] at hd
+      rcases await_status_outcomes { s := s1, apps := apps, rx := rx } c' now addr hst1 rfl hd with
+        ⟨ht, _, hs⟩ | ⟨ht, _, hs⟩
+      · refine ⟨fun hh => (by rw [ht] at hh; simp [isSd1] at hh), fun _ => ?_⟩
+        rcases hs with hs | hs | hs <;> (rw [hs]; simp [phase])
+      · refine ⟨fun hh => (by rw [ht, isSd1_token] at hh; cases hh), fun _ => ?_⟩
+        rcases hs with hs | hs <;> (rw [hs]; simp [phase])
+    | useToken d f => rw [hst] at hph; simp [phase] at hph; omega
+    | awaitData a d => rw [hst] at hph; simp [phase] at hph; omega
+    | _ => rw [hst] at hph; simp [phase] at hph
+
+/-- Outside a visit nothing is counted. -/
+theorem gapPolls_none (s : Station) (apps : Apps) (ins : List (Int × Bool × Bytes)) (h : phase s.st = none) :
+    gapPolls s apps ins = some 0 := by
+  cases ins with
+  | nil => rfl
+  | cons x rest => obtain ⟨now, phyTx, rx⟩ := x; simp [gapPolls, h]
+
+/-- **`one_gap_poll_per_visit`**: over ANY sequence of polls of one token visit — arbitrary times,
+received bytes, PHY states, application scripts, station state — the station transmits at most ONE
+FDL status request outside its application phase (i.e. for its own GAP maintenance), and after that
+request no further one before the token has left (or a new visit has begun).  (The post-claim sweep
+is not a visit in this sense: `ClaimToken` has no phase; its behaviour is `claim_scan_step`.) -/
+theorem one_gap_poll_per_visit : ∀ (ins : List (Int × Bool × Bytes)) (s : Station) (apps : Apps) (n : Nat),
+    gapPolls s apps ins = some n →
+    n + (if phase s.st = some 2 ∨ phase s.st = some 3 then 1 else 0) ≤ 1 := by
+  intro ins
+  induction ins with
+  | nil =>
+    intro s apps n h
+    simp only [gapPolls, Option.some.injEq] at h
+    subst h
+    split <;> omega
+  | cons x rest ih =>
+    intro s apps n h
+    obtain ⟨now, phyTx, rx⟩ := x
+    cases hph : phase s.st with
+    | none =>
+      rw [gapPolls_none s apps _ hph] at h
+      cases h
+      simp
+    | some ph =>
+      simp only [gapPolls, hph] at h
+      cases hp : s.poll apps now phyTx rx with
+      | panic m => rw [hp] at h; cases h
+      | ok c' =>
+        rw [hp] at h
+        simp only at h
+        by_cases h0 : ph = 0
+        · -- application phase: nothing is counted, and the station is in neither phase 2 nor 3
+          subst h0
+          simp only [ne_eq, not_true_eq_false, false_and, if_false, Nat.add_zero, Option.map_eq_some_iff] at h
+          obtain ⟨m, hm, rfl⟩ := h
+          have := ih c'.s c'.apps m hm
+          simp
+          omega
+        · have hv := poll_gap_phase s apps now phyTx rx c' ph hph h0 hp
+          obtain ⟨k, hk⟩ : ∃ k : Nat, k = if ph ≠ 0 ∧ isSd1 c'.tx = true then 1 else 0 := ⟨_, rfl⟩
+          rw [← hk] at h
+          -- a counted request comes from phase 1 and leads to phase 2
+          have hk1 : k = 1 → ph = 1 ∧ phase c'.s.st = some 2 := by
+            intro hk1
+            rw [hk1] at hk
+            split at hk
+            · rename_i hc; exact hv.1 hc.2
+            · cases hk
+          have hk01 : k = 0 ∨ k = 1 := by rw [hk]; split <;> simp
+          split at h
+          · -- a new visit begins: stop
+            simp only [Option.some.injEq] at h
+            subst h
+            rcases hk01 with hk0 | hk1'
+            · rw [hk0]; split <;> omega
+            · have := hk1 hk1'
+              rw [hk1', if_neg (by simp [this.1])]
+              omega
+          · rename_i hstop
+            simp only [Option.map_eq_some_iff] at h
+            obtain ⟨m, hm, rfl⟩ := h
+            have hrec := ih c'.s c'.apps m hm
+            rcases hk01 with hk0 | hk1'
+            · rw [hk0]
+              simp only [Nat.add_zero]
+              -- no request in this poll
+              cases hph' : phase c'.s.st with
+              | none =>
+                rw [gapPolls_none c'.s c'.apps rest hph'] at hm
+                cases hm
+                split <;> omega
+              | some ph' =>
+                by_cases h23 : ph = 2 ∨ ph = 3
+                · have hge : 2 ≤ ph := by omega
+                  have hne1 := hv.2 hge
+                  rw [hph'] at hne1 hrec
+                  have hne0 : ph' ≠ 0 := by
+                    intro hh; apply hstop; exact ⟨h0, by rw [hph', hh]⟩
+                  -- ph' ∈ {2, 3}: the induction hypothesis already carries the 1
+                  have hle := phase_le3 c'.s.st ph' hph'
+                  have hne1' : ph' ≠ 1 := fun hh => hne1 (by rw [hh])
+                  have : ph' = 2 ∨ ph' = 3 := by omega
+                  rw [if_pos (by simpa using this)] at hrec
+                  rw [if_pos (by simpa using h23)]
+                  omega
+                · rw [if_neg (by simpa using h23)]
+                  split at hrec <;> omega
+            · obtain ⟨hp1, hp2⟩ := hk1 hk1'
+              rw [hp2] at hrec
+              simp at hrec
+              rw [hk1', hp1]
+              simp
+              omega
+
+/-- Plain form: at most one own status request per token visit. -/
+theorem one_gap_poll_per_visit_le (s : Station) (apps : Apps) (ins : List (Int × Bool × Bytes)) (n : Nat)
+    (h : gapPolls s apps ins = some n) : n ≤ 1 := by
+  have := one_gap_poll_per_visit ins s apps n h
+  omega
+
 /-! ### The exception: the post-claim sweep of `ClaimToken` polls the whole GAP -/
 
 /-- Claiming the token: two token telegrams TS → TS (each after the synchronisation pause); each
@@ -1098,6 +1265,11 @@ def obs : Res → Option (FState × GapState × Option Bytes × Nat)
 example : SyncOver (demo (.passToken true .first) (.doPoll 8) []).s 1000 := by decide
 example : obs (doPassToken (demo (.passToken true .first) (.doPoll 8) []) 1000) =
     some (.awaitStatus 9, .doPoll 9, some (statusRequestBytes 9 7), 20) := by decide
+-- a whole visit tail: request at t=1000, still waiting at 1500, time-out and token pass at 3000: one request
+example : gapPolls (demo (.passToken true .first) (.doPoll 8) []).s []
+    [(1000, false, []), (1500, false, []), (3000, false, []), (5000, false, [])] = some 1 := by decide
+example : gapPolls (demo (.passToken true .first) (.waiting 3) []).s []
+    [(1000, false, []), (1500, false, []), (3000, false, [])] = some 0 := by decide
 -- time-out: the token goes to 20 in the same poll, no further request
 example : SlotExpired (demo (.awaitStatus 9) (.doPoll 9) []).s 1000 := by decide
 example : obs (doAwaitStatusResponse (demo (.awaitStatus 9) (.doPoll 9) []) 1000) =
